@@ -5,36 +5,25 @@ import Mathlib.Algebra.Order.Field.Rat
 import GeomV.C11.Gen
 import GeomV.C12.Model
 /-!
-T1 tie (C12): `minMaxDist` regenerated from geom.go (four closures, `S`, the running `min` that
-starts at `math.MaxFloat64` = the parameter `big`) = the model's `minMaxDist`, provided the first
-candidate is below `big` (every finite double other than MaxFloat64 itself is).
+T1 tie (C12): `minMaxDist` regenerated from geom.go (four closures that tell the nearer face `rm` from
+the farther face `rM` by `math.Abs` of the two differences, two candidates summed directly, the
+running `min` that starts at `math.MaxFloat64` = the parameter `big`) = the model's `minMaxDist`,
+provided the first candidate is below `big` (every finite double other than MaxFloat64 itself is).
 -/
 namespace GeomV.C12
 open GeomV.C11
 
 /-- the candidate of the x-face: (p.X − rmX)² + (p.Y − rMY)² -/
 def mmdX (px py : Rat) (r : Box) : Rat :=
-  sq (px - (if px ≤ (r.minX + r.maxX) / 2 then r.minX else r.maxX)) +
-  sq (py - (if py ≥ (r.minY + r.maxY) / 2 then r.minY else r.maxY))
+  sq (px - (if ratAbs (px - r.minX) ≤ ratAbs (px - r.maxX) then r.minX else r.maxX)) +
+  sq (py - (if ratAbs (py - r.minY) ≥ ratAbs (py - r.maxY) then r.minY else r.maxY))
 
 theorem C12_tie_minMaxDist (big px py : Rat) (r : Box) (hbig : mmdX px py r < big) :
     Gen.minMaxDist big ⟨px, py⟩ r = minMaxDist px py r := by
   unfold Gen.minMaxDist minMaxDist
   unfold mmdX at hbig
   simp only [sq] at hbig ⊢
-  generalize (if px ≤ (r.minX + r.maxX) / 2 then r.minX else r.maxX) = a at *
-  generalize (if py ≤ (r.minY + r.maxY) / 2 then r.minY else r.maxY) = b at *
-  generalize (if px ≥ (r.minX + r.maxX) / 2 then r.minX else r.maxX) = A at *
-  generalize (if py ≥ (r.minY + r.maxY) / 2 then r.minY else r.maxY) = B at *
-  have e1 : (0 : Rat) + (px - A) * (px - A) + (py - B) * (py - B) - (px - A) * (px - A) + (px - a) * (px - a)
-      = (px - a) * (px - a) + (py - B) * (py - B) := by ring
-  have e2 : (0 : Rat) + (px - A) * (px - A) + (py - B) * (py - B) - (py - B) * (py - B) + (py - b) * (py - b)
-      = (px - A) * (px - A) + (py - b) * (py - b) := by ring
-  have e3 : (px - A) * (px - A) + (py - B) * (py - B) - (px - A) * (px - A) + (px - a) * (px - a)
-      = (px - a) * (px - a) + (py - B) * (py - B) := by ring
-  have e4 : (px - A) * (px - A) + (py - B) * (py - B) - (py - B) * (py - B) + (py - b) * (py - b)
-      = (px - A) * (px - A) + (py - b) * (py - b) := by ring
-  simp only [e1, e2, e3, e4]
   rw [if_pos hbig]
+  split_ifs <;> rfl
 
 end GeomV.C12
